@@ -64,7 +64,7 @@ CONF = {
             "verb b (binary exponent form) is not generated: Go cannot parse it back; speeds are kept <= 1e18 B/s (int64 bytes per second)",
         ],
         "tiers": tiers(8, 12000, 16, 300000, t_fuzz=[{"target": "FuzzC20", "seconds": 90}]),
-        "require_classes": ["kind:size", "kind:pair", "kind:pct", "kind:elapsed", "kind:eta", "kind:avgeta", "kind:speed", "kind:avgspeed", "kind:ewma", "kind:freeze", "current>2^64/100", "value>2^53", "unit-boundary", "duration>=24h", "zero-then-progress", "via-bar", "wrap-depth:4", "twin-moved", "avg:median"],
+        "require_classes": ["kind:size", "kind:pair", "kind:pct", "kind:elapsed", "kind:eta", "kind:avgeta", "kind:speed", "kind:avgspeed", "kind:ewma", "kind:freeze", "current>2^64/100", "value>2^53", "unit-boundary", "duration>=24h", "zero-then-progress", "via-bar", "wrap-depth:4", "twin-moved", "avg:median", "avg:hybrid"],
     },
     "C19": {
         "rule": "cases = (direction, underlying dynamic type: with/without Close x with/without WriteTo/ReadFrom, stream of 0-70000 bytes, bar total unknown/equal/above/below the stream length, 0-3 recording moving-average decorators under 0-3 wrapper layers, a script of up to 12 underlying results (byte limits incl. 0, errors with n>0, EOF with data, delays) and up to 12 consumer calls: Read/Write of generated sizes, io.Copy, io.ReadAll, direct WriteTo/ReadFrom, Close); non-trivial = >=3 transfers of >=2 sizes with an injected error/zero transfer or a fast-path type; distinct by FNV-64 of the case JSON",
